@@ -25,7 +25,7 @@ Flagged == {[k |-> kind, v |-> v, idc |-> "none", rel |-> r, lim |-> "none"] :
               kind \in {"maxstreams", "streamsblocked", "newcid", "retirecid", "newtoken", "datagram",
                         "crypto", "ackfreq"}, v \in Victims, r \in Rel}
 Plain == {[k |-> kind, v |-> v, idc |-> "none", rel |-> 0, lim |-> "none"] :
-            kind \in {"hsdone", "ackunsent", "unknown", "truncated", "ping", "padding", "pathresp",
+            kind \in {"hsdone", "ackunsent", "ackrange", "unknown", "truncated", "ping", "padding", "pathresp",
                       "pathchal", "datablocked", "maxdata"}, v \in Victims}
 Cases == StreamCases \cup FinCases \cup IdOnly \cup Flagged \cup Plain
 
